@@ -2,6 +2,7 @@
 
 use crate::report::Ctx;
 
+pub mod alloc;
 pub mod c02;
 pub mod c03;
 pub mod c04;
@@ -20,6 +21,9 @@ pub fn dispatch(ctx: &mut Ctx) {
         "C07" => c07::run_c07(ctx),
         "C08" => c08::run_c08(ctx),
         "C11" => c07::run_c11(ctx),
+        "C12" => alloc::run_c12(ctx),
+        "C13" => alloc::run_c13(ctx),
+        "C14" => alloc::run_c14(ctx),
         "C25" => c25::run(ctx),
         "C30" => c30::run(ctx),
         "C31" => c08::run_c31(ctx),
